@@ -40,6 +40,25 @@ Theorem C12_bitstring_law : forall p n c, prob (random_bits p n) (leqb c) == bit
 Proof. exact random_bits_law. Qed.
 Print Assumptions C12_bitstring_law.
 
+(* genomes of any length, seen through single positions and pairs of positions: each flip / coin / bit has
+   the configured rate, and two different positions are independent (how genomes far too long to tabulate
+   their children are compared with the code) *)
+Theorem C12_flip_marginals : forall r g i j a b, (i < j)%nat -> (j < length g)%nat ->
+  prob (with_rate r g) (fun c => Bool.eqb (flipped g c i) a) == bern r a /\
+  prob (with_rate r g) (fun c => Bool.eqb (flipped g c i) a && Bool.eqb (flipped g c j) b) == bern r a * bern r b.
+Proof. exact (fun r g i j a b Hij Hj => conj (flip_marginal r g i a (Nat.lt_trans _ _ _ Hij Hj)) (flip_pair_marginal r g i j a b Hij Hj)). Qed.
+Print Assumptions C12_flip_marginals.
+
+Theorem C12_bitstring_pairs : forall p n i j a b, (i < j)%nat -> (j < n)%nat ->
+  prob (random_bits p n) (fun l => Bool.eqb (nth i l false) a && Bool.eqb (nth j l false) b) == bern p a * bern p b.
+Proof. exact random_bits_pair. Qed.
+Print Assumptions C12_bitstring_pairs.
+
+Theorem C12_uniform_xo_pairs : forall n i j a b, (i < j)%nat -> (j < n)%nat ->
+  prob (uniform_xo_masks n) (fun l => Bool.eqb (nth i l false) a && Bool.eqb (nth j l false) b) == 1 # 4.
+Proof. exact uniform_xo_pair. Qed.
+Print Assumptions C12_uniform_xo_pairs.
+
 (* random Plushy genes: a close marker with the close probability, else an instruction from the supplied distribution *)
 Theorem C12_gene_law : forall (I : Type) (instrs : dist I) c P,
   prob (gene_gen c instrs) P ==
